@@ -1569,3 +1569,35 @@ def sweep_stmt_race_run(prop: str, workload: str, j_sym: Any, k_sym: Any, direct
             finally:
                 HOOKS.on_statement = None
                 w.close()
+
+
+def play_reorder_after_restart(choices: list[Any], fanout: int = 3) -> Callable[[World, dict[str, Any]], None]:
+    """A ``play`` for crash_run: FIFO until the crash; after every restart the first len(choices)
+    choice points are scheduled by symbolic picks (the redelivered un-acked message need not be the
+    first thing the restarted worker handles)."""
+
+    def play(w: World, state: dict[str, Any]) -> None:
+        state["calls"] = state.get("calls", 0) + 1
+        if state["calls"] == 1:
+            w.drain()
+            return
+        cp = 0
+        step = 0
+        while step < MAX_STEPS:
+            if not w.make_visible():
+                break
+            now = stubs.CLOCK.peek_ms()
+            vis = [r for r in w.rows() if r["attempts"] < w.queue_max_attempts and r["deliver_ms"] // 1000 <= now // 1000
+                   and (r["lock_ms"] is None or r["lock_ms"] // 1000 < now // 1000)]
+            if not vis:
+                break
+            vis.sort(key=lambda r: (r["deliver_at"], r["id"]))
+            idx = 0
+            if cp < len(choices) and len(vis) > 1:
+                idx = hx.pick(choices[cp], min(len(vis), fanout))
+                cp += 1
+            w.deliver(vis[idx]["id"])
+            step += 1
+        w.processor._check_dlq()
+
+    return play
